@@ -38,7 +38,7 @@ THEOREMS = ["JanetModel.Props.C16." + t for t in (
     "child_stdio_exact", "spawn_child_stdio_exact", "exFresh", "std_source_unmoved_loses_descriptor", "wait_once", "first_wait_suspends", "reaped_status_recorded",
     "close_closes_owned_once",
     # session 3: liveness under an explicit fairness hypothesis
-    "op_ends_within_fair_events", "every_op_completes_under_fairness")]
+    "op_ends_within_fair_events", "every_op_completes_under_fairness", "recvfrom_one_message_per_call")]
 PROC_CURRENT = ["JanetModel.Proc.Current." + t for t in (
     "current_source_waitpid_options", "exit_status_exact_current", "current_source_moves_std_sources")]
 PLUMB_CASES = {"quick": 160, "thorough": 2400}
@@ -309,6 +309,62 @@ def run_plumb(ctx, exe, drv, batches):
             if d:
                 diffs.append({"case": plumb.jdn_case(c), "line": ml[:300], "model": line[:400], "why": d[0][:500]})
     return stats["cases"], fails, diffs, stats
+
+
+# ------------------------------------------------------------------------------------------------ life cycle of the process value
+def gen_life(rng, n):
+    seqs = []
+    for k in range(n):
+        pre = [rng.choice(["w", "c", "x", "w", "c"]) for _ in range(rng.below(4))]
+        post = [rng.choice(["w", "c"]) for _ in range(rng.below(4))]
+        if not pre and not post:
+            post = ["w"]
+        seqs.append({"id": k, "code": rng.choice([0, 1, 7, 42, 255]), "ops": pre + ["R"] + post})
+    return seqs
+
+
+def run_life(ctx, exe, drv, seqs):
+    """op sequences on real process values (harness/C16/life.janet) vs ProcSt (`L` command) + direct expectations
+    -> (n, [(sig, desc, seq)], diffs, op histogram)"""
+    d = tempfile.mkdtemp(prefix="c16l-", dir="/var/tmp")
+    fails, diffs, hist = [], [], {}
+    try:
+        with open(os.path.join(d, "seqs.jdn"), "w") as f:
+            f.write("[" + "\n ".join("{:id %d :code %d :ops [%s]}" % (q["id"], q["code"], " ".join(":" + o for o in q["ops"])) for q in seqs) + "]\n")
+        env = dict(os.environ, ASAN_OPTIONS="detect_leaks=0", C16_BACKSTOP_MS="60000")
+        rc, out, err = run_cmd([exe, os.path.join(VERIF, "harness/C16/life.janet"), d, os.path.join(d, "seqs.jdn")], timeout=600, env=env, cwd=d)
+        text = out.decode(errors="replace")
+        got = {}
+        for m in re.finditer(r"^LF (\d+) (.*)$", text, re.M):
+            got[int(m.group(1))] = m.group(2).strip()
+        if rc != 0 or "DONE" not in text:
+            fails.append(("proc-life:script", "life.janet did not finish: rc=%s %s" % (rc, err.decode(errors="replace")[-300:]), None))
+        mo = ctx.model(["L %d %s" % (q["code"], " ".join(q["ops"])) for q in seqs], exe=drv) if drv else []
+        for q, line in zip(seqs, mo or [None] * len(seqs)):
+            g = got.get(q["id"])
+            for o in q["ops"]:
+                hist[o] = hist.get(o, 0) + 1
+            what = "ops %s, child exits %d" % (" ".join(q["ops"]), q["code"])
+            if g is None:
+                fails.append(("proc-life:no-result", "process life cycle %s: no result line" % what, q))
+                continue
+            toks = g.split()
+            res, tail = [t for t in toks if "=" not in t], dict(t.split("=", 1) for t in toks if "=" in t)
+            if "pending" in res:
+                fails.append(("proc-life:op-never-completes", "process life cycle %s: an os/proc-wait / os/proc-close never completed although the child "
+                              "exited: %s" % (what, g), q))
+            bad = [t for t in res if t not in ("err", "nil", "cancelled", "pending", "val:%d" % q["code"])]
+            if bad:
+                fails.append(("exit-status:proc-life", "process life cycle %s: results %s (expected val:%d / err / nil / cancelled)" % (what, g, q["code"]), q))
+            if sum(1 for t in res if t.startswith("val:")) > 1:
+                fails.append(("proc-life:status-delivered-twice", "process life cycle %s: more than one operation received the status: %s" % (what, g), q))
+            if any(t in ("pending", "cancelled") or t.startswith("val:") for t in res) and tail.get("rc") != str(q["code"]):
+                fails.append(("exit-status:return-code", "process life cycle %s: (proc :return-code) is %s after the child was reaped: %s" % (what, tail.get("rc"), g), q))
+            if line is not None and line.strip() != g:
+                diffs.append({"seq": what, "impl": g, "model": line.strip(), "why": "life cycle of the process value: implementation and ProcSt model differ"})
+        return len(seqs), fails, diffs, hist
+    finally:
+        shutil.rmtree(d, ignore_errors=True)
 
 
 # ------------------------------------------------------------------------------------------------ exit-status decoder
@@ -625,6 +681,24 @@ def run(ctx, only=None):
         broken.append("correspondence os_execute_impl / Proc.Spawn model on %d of %d cases, first: %r" % (len(pdiffs), nplumb, pdiffs[0]))
         if not ctx.nviol:
             ctx.broken.append(broken[-1])
+    # life cycle of the process value: op sequences on real processes vs ProcSt (D) + direct expectations (E)
+    try:
+        lifeq = gen_life(ctx.rng.fork("life"), 80 if quick else 800)
+        nlife, lfails, ldiffs, lhist = run_life(ctx, exe, drv, lifeq) if not only or only == "life" else (0, [], [], {})
+    except Exception as e:   # noqa: BLE001
+        nlife, lfails, ldiffs, lhist = 0, [("proc-life:harness-failed", "life-cycle sequences could not be run: %s: %s" % (type(e).__name__, e), None)], [], {}
+    byclass = {}
+    for sig, desc, q in lfails:
+        byclass.setdefault(sig, []).append((desc, q))
+    for sig, items in byclass.items():
+        if sig not in reported:
+            reported.add(sig)
+            ctx.violation(sig, {"kind": "proc-life", "seq": items[0][1], "failure": items[0][0], "all_failing": [x for x, _ in items[:20]]},
+                          what=items[0][0][:500] + (" (+%d more sequences)" % (len(items) - 1) if len(items) > 1 else ""))
+    if ldiffs:
+        broken.append("correspondence process life cycle / ProcSt model on %d of %d sequences, first: %r" % (len(ldiffs), nlife, ldiffs[0]))
+        if not ctx.nviol:
+            ctx.broken.append(broken[-1])
     # exit-status decoder: compiled C on all 2^16 words vs regenerated trees (D) and vs the expected reports (E)
     try:
         nstat, sdiffs, sfails, predicted = status_correspond(ctx, drv)
@@ -659,7 +733,7 @@ def run(ctx, only=None):
     elif broken:
         ctx.say("broken obligations (failing input reported above): " + "; ".join(broken)[:600])
     cov = {
-        "evaluations": nops + nexec + ncorr + nstat + nplumb,
+        "evaluations": nops + nexec + ncorr + nstat + nplumb + nlife,
         "distinct_nontrivial": len(results) + nexec + nplumb,
         "rule": "one evaluation = one janet-level stream operation judged by the direct oracle, one exit-status / redirection case, or one "
                 "operation whose intercepted syscall sequence was compared with the Lean model, one os/spawn / os/execute plumbing case, or one "
@@ -674,6 +748,7 @@ def run(ctx, only=None):
         "kernel_own": {"eagain": faults["real_eagain"], "partial_transfers": faults["real_partial"]}, "epoll_rearms": faults["rearm"],
         "correspondence_ops": ncorr, "correspondence_diffs": len(diffs), "model_outcomes": mkinds,
         "plumbing": pstats, "plumbing_model_diffs": len(pdiffs),
+        "life_cycle_sequences": nlife, "life_cycle_ops": lhist, "life_cycle_model_diffs": len(ldiffs),
         "status_words_compared": nstat, "status_word_diffs": len(sdiffs),
         "status_decoder_regenerated": (pfacts or {}).get("branches_c"), "waitpid_options": (pfacts or {}).get("waitpidOptions"),
         "source_facts": facts, "broken": broken[:6],
